@@ -168,6 +168,6 @@ def run(tier, rep):
                             "requests exactly one authorization line that verifies. non-trivial = request with >=1 spoofed copy; distinct by (spoofed names, count, user, signed, method)")
     shards = 6 if tier == "quick" else 16
     args = [{"shard": i, "tier": tier, "requests": 500 if tier == "quick" else 4000} for i in range(shards)]
-    for res in sandbox.run_many("vf.props.c05", "worker", args, workers=shards, timeout=1200):
+    for res in sandbox.run_many("vf.props.c05", "worker", args, workers=shards, timeout=1200 if tier == "quick" else 7200):
         rep.merge_worker(res)
     rep.assumptions += ["a client authorization header on a request the proxy does not sign may pass (the statement restricts only signed requests)"]
